@@ -1,5 +1,7 @@
 /- C11 invariants, part 13: the invariants together; who holds the write lock — assembly -/
 import SemaModel.C11.Inv12
+set_option linter.unusedSimpArgs false
+set_option linter.unusedVariables false
 namespace Sema.C11
 
 structure Inv (s : St) : Prop where
